@@ -109,7 +109,12 @@ def is_ignored_via_amend(error: Error, settings: Settings) -> bool:
 
     for ignore in settings.ignore:
         if ignore.path:
-            ignore_path = (config_root / ignore.path).resolve()
+            try:
+                ignore_path = (config_root / ignore.path).resolve()
+
+            except (OSError, RuntimeError, ValueError):  # pragma: no cover
+                # A path which cannot be resolved (ie, a symlink loop) contains no files
+                continue
 
             if path.is_relative_to(ignore_path):
                 if isinstance(ignore, ErrorCode):
